@@ -64,6 +64,10 @@ func cmpRefV4(prefix string, want *refv4.Packet, got *dhcpv4.DHCPv4) *obs.Fail {
 	if got.Flags != want.Flags {
 		return bad("flags", want.Flags, got.Flags)
 	}
+	// the broadcast flag is the most significant bit of the flags field (RFC 2131 figure 2), whatever the other 15 are
+	if got.IsBroadcast() != (want.Flags&0x8000 != 0) || got.IsUnicast() == got.IsBroadcast() {
+		return bad("flags/broadcast-bit", want.Flags&0x8000 != 0, fmt.Sprintf("IsBroadcast=%v IsUnicast=%v (flags %04x)", got.IsBroadcast(), got.IsUnicast(), got.Flags))
+	}
 	if !ip4eq(got.ClientIPAddr, want.CI) {
 		return bad("ciaddr", want.CI, got.ClientIPAddr)
 	}
